@@ -12,6 +12,7 @@ EXPLANATION = ("Props/C07.v: prefix/ordering, no false errors, stale messages ha
 TRUSTED = ["blocking and wake-up (waitEmptyQueue/waitNonEmtpyQueue notifier lists) are exercised but only sequentially modelled",
            "the queue-level wiring in the harness copies the three statements of SendAndReceive/packet(); the connection-level run (L2) "
            "uses the real functions"]
+SHARDS = 3      # harness processes side by side (cases are independent)
 RUN_TIMEOUT = 1200
 
 
